@@ -102,7 +102,11 @@ class Gen:
             lines.append(pad + ('async def ' if is_async else 'def ') + name + '(*args):')
             doc, nb, prompts = gen_doc(rng, uid, indent + 4)
             if doc is not None:
-                lines += [pad + '    r"""', doc, pad + '    """']
+                if rng.random() < 0.2 and doc.split('\n')[0].strip():
+                    # the docstring starts right behind the opening quotes (a tag or a prompt may stand there)
+                    lines += [pad + '    r"""' + doc.lstrip(' '), pad + '    """']
+                else:
+                    lines += [pad + '    r"""', doc, pad + '    """']
             hidden = deco in ('@prev.setter', '@prev.deleter', '@Box.prev.setter', '@Box.prev.deleter')     # also the dotted spelling (a subclass extending an inherited property)
             if visible and not hidden:
                 self.expected.append(((cls + '.' if cls else '') + name, doc, nb, prompts))
